@@ -1,6 +1,7 @@
 import GSProofs.C20Shared
 import GSProofs.Lemmas.ConcurrentCleanSys
 import GSProofs.Lemmas.ConcurrentCleanRoot
+import GSProofs.Lemmas.ConcurrentCleanAlign
 /-!
 # C20 — the cleanliness hypothesis of `shared_store_follows`, clause by clause
 
@@ -24,6 +25,11 @@ reduces `miss` to ONE statement about the END of the alone run (reports only gro
   the completeness clause at its end;
 * `alone_run_clean_root_missing`, `partial_shared_store_root_missing` — FULL strength (no completeness
   hypothesis) in the region "the responder lacks the root": the only block reported missing is the root;
+* `alone_run_clean_unheld_root`, `partial_shared_store_unheld_root` — FULL strength (no completeness
+  hypothesis) in the region "the requestor does not hold the root when the request is issued" (no locally
+  loaded prefix; the responder holds the root or not): `WF` link tree, store ⊆ responder store; proved by the
+  alignment invariant `AL` of `Lemmas/ConcurrentCleanAlign.lean` (C02 completeness, one item per message,
+  every interleaving);
 * `shared_store_follows_wf_partial`, `partial_shared_store_wf_partial` — `shared_store_follows` /
   `partial_shared_store_issue_time` with the `CleanAt` hypothesis replaced by that single clause (and
   `hdep`).
@@ -31,7 +37,7 @@ reduces `miss` to ONE statement about the END of the alone run (reports only gro
 ## What remains (NOT proved; the full statements)
 
     theorem alone_run_clean (st rem lts keys i root rest)
-        (hl : lts[i]? = some (root :: rest)) (hwf : WF (root :: rest)) (hroot0 : root.path = [])
+        (hl : lts[i]? = some (root :: rest)) (hwf : Loader.WF (root :: rest)) (hroot0 : root.path = [])
         (hne : ∀ m ∈ rest, m.path ≠ []) (hdep : ∀ m ∈ rest, m.depth ≠ 0)
         (hdfs : PathsDFS ((root :: rest).map (·.path)))
         (hst : ∀ c, (storeGet st c).isSome = true → c ∈ rem)
@@ -44,16 +50,17 @@ reduces `miss` to ONE statement about the END of the alone run (reports only gro
     theorem alone_result_store_independent : … st ⊆ rem, st' ⊆ rem ⇒ blocksOf / missingOf / deliveredOf of the
         complete alone run over st = those over st' (= the reference traversal `refTrav` over rem)
 
-By `alone_run_clean_wf_partial` the first one is equivalent to its `miss` clause at the end of the run
-(`hwf`, `hroot0`, `hne`, `hdfs` are needed for that clause only).  The `miss` clause is C02 completeness (`C02.complete_prefix_held`) for the delivery
-discipline of this model — ONE response item per message, executor woken after each, the verifier's
-replay of the local prefix spread over `N` wake-ups, the terminal status in a message of its own — while
-C02's theorems are stated for the whole response ingested as one message before `RetryLastLoad`; what
-connects them is (i) `respStep` iterated over `prepare`'s tracker = `respItemsW rem lt [] N` item by
-item (C19 `send_iff_partial` for the skip window), (ii) `Loader.ingest` of singletons = `ingest` of the
-concatenation on an open loader with intact tail (`ingest_eq_addQ`), (iii) `C02.kahn_schedule` (messages
-first) for the executor as `Client`, (iv) the closing `setOnline false`, which `kahn_schedule` does not
-cover.  0 violations in 20 000 generated well-formed cases (`#eval` harness of round 4).
+By `alone_run_clean_wf_partial` the first one is equivalent to its `miss` clause at the end of the run,
+and by `alone_run_clean_unheld_root` it is PROVED whenever the requestor does not hold the root at issue
+time.  What is left is the request with a locally loaded prefix of `N ≥ 1` links (do-not-send-first-blocks
+= `N`; `hroot0`, `hne`, `hdfs` are needed there only): the first `N` deliveries are consumed by the
+verifier's replay of the traversal record (one `Loader.waitRemote_step` per wake-up: `tipOf_spec`,
+`nextLink_true'` of `Lemmas/LoaderReplayTrie.lean` under `PathsDFS`), the tracker's skip window (`TI` with
+`N > 0`: `respStep_item` already covers it) makes the responder send no block for them, and from then on
+the invariant `AL` applies unchanged (`PK.ver`: the verifier is done).  Missing pieces: the start state
+after the local phase (`ExchangeComplete.request_prefix` + `LoaderReplay.afterResponseP_eq`), the replay
+step as a case of `AL_deliver` (cursor = remaining prefix ++ executor's cursor, window = remaining prefix).
+0 violations in 20 000 generated well-formed cases (`#eval` harness of round 4).
 -/
 namespace GS.C20
 open GS.Loader GS.Requestor GS.LinkTrack GS.Concurrent
@@ -274,6 +281,73 @@ theorem partial_shared_store_root_missing (st : List (Cid × Blk)) (rem : List C
       (issueStore_sub st rem lts keys pre hst) hl hd hnr τ'
       (fun a ha => onlyOf_acts i post hpost a (hτ'.subset ha))) c1 c2
 
+/-- **C20.alone_run_clean_unheld_root** (`alone_run_clean` at FULL strength — all three clauses, no
+    completeness hypothesis — in the region "the requestor does not hold the root when the request is
+    issued", i.e. no locally loaded prefix, do-not-send-first-blocks = 0).  Link tree well formed (`WF`:
+    paths agree with the depth structure), only the first link has depth 0, local store ⊆ responder
+    store and without the root's block; the responder may hold the root or not, and any other blocks.
+    The run of request `i` alone, under ANY schedule of its actions, is `CleanAt` at every state: in
+    particular it never reports a block missing that the responder holds.  This is single-request
+    completeness (C02 `complete_remote_start`) for the delivery discipline of this model — one response
+    item per message, the executor woken after each, the terminal status in a message of its own, any
+    interleaving of responder steps and deliveries — proved directly by an alignment invariant
+    (`AL`, `Lemmas/ConcurrentCleanAlign.lean`): the honest stream `respItemsW` for the executor's cursor =
+    the items in flight ++ what the responder will still produce; the tracker of the request's dedup
+    scope holds exactly the blocks traversed so far; a block the responder did not send again is in
+    the local store. -/
+theorem alone_run_clean_unheld_root (st : List (Cid × Blk)) (rem : List Cid) (lts : List LT) (keys : List (Option Key))
+    (i : Nat) (root : LNode) (rest : LT)
+    (hst : ∀ c, (storeGet st c).isSome = true → c ∈ rem)
+    (hl : lts[i]? = some (root :: rest)) (hwf : Loader.WF (root :: rest)) (hdep : ∀ m ∈ rest, m.depth ≠ 0)
+    (hun : storeGet st root.cid = none)
+    (τ : List Act) (hτ : ∀ a ∈ τ, a = .resp i ∨ a = .deliver i) :
+    CleanAt i (Concurrent.run (initSys st rem lts keys) (.start i :: τ)) := by
+  by_cases hcase : root.depth = 0 ∧ root.cid ∉ rem
+  · exact alone_run_clean_root_missing st rem lts keys i root rest hst hl hcase.1 hcase.2 τ hτ
+  · have hd0m : ∀ m ∈ root :: rest, m.depth = 0 → m.cid ∈ rem := by
+      intro m hm hd
+      rcases List.mem_cons.mp hm with rfl | hm
+      · apply Classical.byContradiction
+        intro hnr
+        exact hcase ⟨hd, hnr⟩
+      · exact absurd hd (hdep m hm)
+    have hd0 : ∀ lt, lts[i]? = some lt → ∀ m ∈ lt, m.depth = 0 → m.cid ∈ rem := by
+      intro lt hl'
+      rw [hl] at hl'
+      cases hl'
+      exact hd0m
+    obtain ⟨a0, e0⟩ := AL_start st rem lts keys i root rest hl hun hwf hd0m
+    have hG := (GOK_step _ (.start i) (GOK_init st rem lts keys hst)).1
+    obtain ⟨_, e1⟩ := AL_run i τ _ hτ hG a0 e0
+    obtain ⟨h1, h2, _⟩ := alone_run_regular st rem lts keys i hd0 τ hτ
+    exact ⟨h1, fun r w ws _ _ hc => h2 (w :: ws) w hc List.mem_cons_self, e1⟩
+
+/-- **C20.partial_shared_store_unheld_root** (`partial_shared_store` under `WF`, no cleanliness or
+    completeness hypothesis, for a request whose root is not in the shared store when it is issued —
+    e.g. every request issued before any block of its root's cid was stored, in particular the first
+    request over an empty store).  Distinct dedup keys over the shared store ⊆ responder store; every
+    schedule of the whole system that issues request `i` once and is complete for it gives `i` the
+    result (delivered nodes, missing-block errors, termination) of every complete schedule of `i` alone
+    over its issue-time store. -/
+theorem partial_shared_store_unheld_root (st : List (Cid × Blk)) (rem : List Cid) (lts : List LT) (keys : List (Option Key))
+    (i : Nat) (k : Key) (pre post τ : List Act) (root : LNode) (rest : LT)
+    (hst : ∀ c, (storeGet st c).isSome = true → c ∈ rem)
+    (hk : keys.getD i none = some k) (hothers : ∀ j, j ≠ i → keys.getD j none ≠ some k)
+    (hpre : ∀ a ∈ pre, Act.idx a ≠ i) (hpost : ∀ a ∈ post, a ≠ .start i)
+    (hτ : ∀ a ∈ τ, a = .resp i ∨ a = .deliver i)
+    (hl : lts[i]? = some (root :: rest)) (hwf : Loader.WF (root :: rest)) (hdep : ∀ m ∈ rest, m.depth ≠ 0)
+    (hun : storeGet (issueStore st rem lts keys pre) root.cid = none)
+    (c1 : Complete i (Concurrent.run (initSys st rem lts keys) (pre ++ .start i :: post)))
+    (c2 : Complete i (Concurrent.run (initSys (issueStore st rem lts keys pre) rem lts keys) (.start i :: τ))) :
+    resultOf (Concurrent.run (initSys st rem lts keys) (pre ++ .start i :: post)) i
+      = resultOf (Concurrent.run (initSys (issueStore st rem lts keys pre) rem lts keys) (.start i :: τ)) i ∧
+    finished (Concurrent.run (initSys st rem lts keys) (pre ++ .start i :: post)) i
+      = finished (Concurrent.run (initSys (issueStore st rem lts keys pre) rem lts keys) (.start i :: τ)) i :=
+  partial_shared_store_issue_time st rem lts keys i k pre post τ hst hk hothers hpre hpost hτ
+    (fun τ' hτ' => alone_run_clean_unheld_root (issueStore st rem lts keys pre) rem lts keys i root rest
+      (issueStore_sub st rem lts keys pre hst) hl hwf hdep hun τ'
+      (fun a ha => onlyOf_acts i post hpost a (hτ'.subset ha))) c1 c2
+
 /-! ## non-vacuity (test of concrete values)
 
 The system of the example at the end of `C20Shared.lean` (two requests for the DAG 7 -> 3, distinct keys,
@@ -297,5 +371,19 @@ example :
     missingOf ((Concurrent.run (initSys [] [3] [exLT] [some 1]) [.start 0, .resp 0, .resp 0, .deliver 0, .deliver 0]).evs.getD 0 [])
       = [(7, [])] := by
   refine ⟨by decide, by decide, by decide, by decide⟩
+
+/-- `alone_run_clean_unheld_root` / `partial_shared_store_unheld_root`: two requests for the DAG 7 -> 3 with
+    distinct keys over one initially empty store; request 1 is issued before anything is stored (its root
+    is not in the shared store), request 0 stores both blocks while request 1's exchange is under way;
+    the link tree is well formed; request 1 delivers both blocks, as alone. -/
+example :
+    Loader.WF exLT ∧ (∀ m ∈ exLT.tail, m.depth ≠ 0) ∧
+    storeGet (issueStore [] [7, 3] [exLT, exLT] [some 1, some 2] [.start 0, .resp 0]) 7 = none ∧
+    resultOf (Concurrent.run (initSys [] [7, 3] [exLT, exLT] [some 1, some 2])
+      ([.start 0, .resp 0] ++ .start 1 :: [.deliver 0, .resp 1, .resp 0, .deliver 0, .deliver 1, .resp 1, .deliver 1,
+        .resp 1, .deliver 1, .resp 0, .deliver 0])) 1 = ([(7, []), (3, [0])], [], 2) := by
+  refine ⟨?_, by decide, by decide, by decide⟩
+  simp only [exLT, Loader.WF, subOf, skipSub]
+  decide
 
 end GS.C20
